@@ -48,8 +48,7 @@ class AddStopCommandsDecision:
 class AddStopCommands:
     """C09: 'stops are only sent to instances where the process is running' - to ALL of them (C05: 'on every copy'): a
     stop command of the request is planned (it sits in the group of its sequence number at the end of its iteration)
-    unless the job already holds a command for the same process on the same instance; in that case - code comment 'not
-    relevant to consider a process already considered' - the plan is not touched."""
+    unless the job already holds a command for the same process on the same instance."""
     variants = ['ApplicationStopJobs']
     raises = ()
     types = {'jobs': 'Dict[int, List[ProcessCommand]]'}
@@ -68,14 +67,6 @@ class AddStopCommands:
         targeted = iter_old(command).identifier is not None and iter_old(command).identifier != ''
         return implies(targeted and not held_in(cur, plan, iter_old(command)),
                        sequence_number in self.planned_jobs and command in self.planned_jobs[sequence_number])
-
-    def loop1_iter_already_planned_is_not_planned_twice(self, k, command, sequence_number, iter_old):
-        cur = iter_old(self.current_jobs)
-        plan = iter_old(self.planned_jobs)
-        return implies(held_in(cur, plan, iter_old(command)),
-                       self.planned_jobs is iter_old(self).planned_jobs
-                       and forall(int, lambda s: (s in self.planned_jobs) == (s in plan)
-                                  and implies(s in plan, self.planned_jobs[s] is plan[s] and self.planned_jobs[s] == plan[s])))
 
     def loop1_iter_nothing_leaves_the_plan(self, k, iter_old):
         """the commands already planned stay planned, under the same sequence number (a request only ever adds)"""
